@@ -32,7 +32,13 @@
             solid entry   S~comp~enc~mode~extras~inner^inner^..~end     (inner entries in the normal format,
                           end = ok | !Kind;  the whole inner part is !Kind when the stream cannot be opened)
             content = hex | !Kind.  Contents are read with the buffer sizes `bufs`, cyclically, until a read
-            returns nothing; the solid stream is pulled with 8192-byte reads.                              *)
+            returns nothing.  A solid entry is expanded lazily (Pipeline.decode_solid_lazy): the inner entries
+            yielded, then how the iteration ended — `ok`, or the error the iterator yielded last (a stored CBC
+            stream with a damaged end yields the entries in front of the damage first).  A stored solid stream
+            is pulled with 16-byte reads: the decrypting reader then hands out one cipher block per read and no
+            byte is lost inside a failing read, which is what ChunkReader's read_exact calls amount to
+            (LazySolidFacts: reads16_deliver_all, chunk_reader_refines); a compressed one with 8192-byte reads
+            (decoded eagerly, as before).                                                                  *)
 From PNA Require Import Base Crc32 Name Codec Chunk Archive Entry Flatten Cbc Ctr Pipeline Aes Camellia CodecRun StreamRun.
 
 Definition bar : byte := x7c.
@@ -192,11 +198,13 @@ Definition show_normal (e : normal_entry) : bytes :=
               show_chunks (n_extra e)].
 Definition show_fin (f : fin) : bytes :=
   match f with FinOk => lit "ok" | FinErr e => show_err_item e | FinPanic => lit "!PANIC" end.
+Definition solid_reads (s : solid_entry) : list N :=
+  reads_for [match s_comp (so_hdr s) with CNo => 16 | _ => 8192 end] (so_data s).
 Definition show_solid (s : solid_entry) : bytes :=
   let h := so_hdr s in
   join [tilde] ([lit "S"; dec (comp_to_n (s_comp h)); dec (enc_to_n (s_enc h)); dec (mode_to_n (s_mode h));
                  show_chunks (so_extra s)] ++
-    match decode_solid real_E_of real_D_of (decompress_tab dt) (verify_tab vt) s [] (reads_for [8192] (so_data s)) with
+    match decode_solid_lazy real_E_of real_D_of (decompress_tab dt) (verify_tab vt) s [] (solid_reads s) with
     | Ok (inner, f) => [join [caret] (map show_normal inner); show_fin f]
     | Err e => [show_err_item e]
     | Panic => [lit "!PANIC"]
